@@ -677,7 +677,7 @@ pub fn c13(tier: Tier) -> i32 {
         ];
         (0..n).map(|j| pool[(k + j) % pool.len()].clone()).collect()
     };
-    let maxk = if tier == Tier::Quick { 4 } else { 5 };
+    let maxk = if tier == Tier::Quick { 4 } else { 8 };
     // vulnerabilities: every subset of size >= 1
     let nv = tb.vulns.len();
     for mask in 1u32..(1 << nv) {
@@ -695,7 +695,7 @@ pub fn c13(tier: Tier) -> i32 {
     let no = tb.opts.len();
     for k in 2..=maxk {
         for start in 0..no {
-            if k >= 4 && start % (if tier == Tier::Quick { 6 } else { 2 }) != 0 {
+            if k >= 4 && start % (if tier == Tier::Quick { 6 } else if k == 8 { 10 } else if k == 7 { 6 } else if k == 6 { 3 } else { 2 }) != 0 {
                 continue;
             }
             let keys: Vec<Optimization> = (0..k).map(|j| tb.opts[(start + j * (1 + start % 3)) % no]).collect();
@@ -788,7 +788,7 @@ pub fn c13(tier: Tier) -> i32 {
     run.set("binary_reruns_sampled", dl.binary_runs);
     run.set(
         "rule",
-        "states = (findings set, iteration order of the HashMap, discovery order of each pattern's files): for every set all n! iteration orders are witnessed by constructing fresh maps until each order has appeared (n <= 4 quick, 5 thorough), crossed with all permutations of the file vectors (same file name with different line sets included); directory level: analyze_dir + generate_report under every listing permutation of every directory (seam) and every order of the selected patterns; binary level (sampled, labelled): the unhooked binary run 3 times on the same directory; oracle = byte equality of all renderings of one findings set; non-trivial = findings sets + distinct directory-level reports",
+        "states = (findings set, iteration order of the HashMap, discovery order of each pattern's files): for every set all n! iteration orders are witnessed by constructing fresh maps until each order has appeared (n <= 4 quick, 8 thorough), crossed with all permutations of the file vectors (same file name with different line sets included); directory level: analyze_dir + generate_report under every listing permutation of every directory (seam) and every order of the selected patterns; binary level (sampled, labelled): the unhooked binary run 3 times on the same directory; oracle = byte equality of all renderings of one findings set; non-trivial = findings sets + distinct directory-level reports",
     );
     run.set("bound_completed", format!("map keys <= {}; files per pattern <= 3; directory entries <= 4", maxk));
     run.set("samples", json!([{"patterns": ["UnsafeERC20Operation", "FloatingPragma"], "files": [["Token.sol", [12, 40]], ["Token.sol", [7]], ["Vault.sol", [3]]], "orders": 2, "file_orders": 6}]));
